@@ -1,9 +1,99 @@
-import Gzx.Util
+import Gzx.Model.WriterFrontend
 namespace Gzx.Driver.C12
-open Gzx
+open Gzx Gzx.Render Gzx.WriterFrontend
 
-/-- line-protocol handler of suite `c12` (arguments after the suite name) -/
+def keyOf? : String → Option HintKey
+  | "ERROR_CORRECTION" => some .errorCorrection
+  | "CHARACTER_SET" => some .characterSet
+  | "DATA_MATRIX_SHAPE" => some .dataMatrixShape
+  | "MIN_SIZE" => some .minSize
+  | "MAX_SIZE" => some .maxSize
+  | "MARGIN" => some .margin
+  | "QR_VERSION" => some .qrVersion
+  | "QR_MASK_PATTERN" => some .qrMaskPattern
+  | "GS1_FORMAT" => some .gs1Format
+  | "FORCE_CODE_SET" => some .forceCodeSet
+  | _ => none
+
+/-- `int:<n>` | `str:<hex>` | `bool:<0|1>` | `other:<tag>[:a[:b…]]` -/
+def valOf? (s : String) : Option HintVal :=
+  match s.splitOn ":" with
+  | ["int", n] => (parseInt? n).map .int
+  | ["str", h] => (parseHex? h).map .str
+  | ["bool", b] => some (.bool (b == "1"))
+  | "other" :: tag :: args => (args.mapM parseInt?).map (.other tag)
+  | _ => none
+
+def hintsOf? (s : String) : Option (List (HintKey × HintVal)) :=
+  if s == "-" then some [] else
+  (s.splitOn ",").mapM (fun kv =>
+    match kv.splitOn "=" with
+    | [k, v] => do let k ← keyOf? k; let v ← valOf? v; pure (k, v)
+    | _ => none)
+
+def lookupHints (kvs : List (HintKey × HintVal)) : Hints :=
+  fun k => (kvs.find? (fun kv => kv.1 == k)).map (·.2)
+
+/-- outcome of the real encoder core, measured by the harness: `na` | `ok:WxH` | `ERR:writer` | `ERR:other` | `PANIC` -/
+inductive CoreOut where
+  | na | ok (w h : Nat) | err (f : Fault)
+
+def coreOf? (s : String) : Option CoreOut :=
+  match s.splitOn ":" with
+  | ["na"] => some .na
+  | ["ok", d] =>
+    match d.splitOn "x" with
+    | [w, h] => do let w ← parseNat? w; let h ← parseNat? h; pure (.ok w h)
+    | _ => none
+  | ["ERR", "writer"] => some (.err .writer)
+  | ["ERR", _] => some (.err .illegalArg)
+  | ["PANIC"] => some (.err (.panic "core"))
+  | _ => none
+
+def coreModules : CoreOut → Res Modules
+  | .na => .error (.panic "model asked for a core result the harness did not measure")
+  | .ok w h => .ok ⟨w, h, fun _ _ => false⟩
+  | .err f => .error f
+
+def coreCode : CoreOut → Res (List Bool)
+  | .na => .error (.panic "model asked for a core result the harness did not measure")
+  | .ok w _ => .ok (List.replicate w false)
+  | .err f => .error f
+
+def showOut : Res Image → String
+  | .ok img => s!"ok {img.w}x{img.h}"
+  | .error (.panic _) => "PANIC"
+  | .error .writer => "ERR:writer"
+  | .error _ => "ERR:other"
+
+/-- `enc <writer> fmt=<n> own=<0|1> empty=<0|1> runes=<n> w=<w> h=<h> cs=<-|0|1> core=<…> hints=<…>` -/
 def handle : List String → String
+  | "enc" :: writer :: args =>
+    match argNat args "fmt", argNat args "empty", argNat args "runes", argInt args "w", argInt args "h",
+          argOf args "cs", (argOf args "core").bind coreOf?, (argOf args "hints").bind hintsOf? with
+    | some fmt, some empty, some runes, some w, some h, some cs, some core, some kvs =>
+      let hints := lookupHints kvs
+      let content : List Nat := if empty = 1 then [] else [65]
+      let cc : List Nat → Hints → Res (List Bool) := fun _ _ => coreCode core
+      match writer with
+      | "QR" => showOut (encodeQR ⟨fun _ => cs == "1", fun _ _ _ => coreModules core⟩ content fmt w h hints)
+      | "DM" => showOut (encodeDM ⟨fun _ _ _ _ => coreModules core⟩ content fmt w h hints)
+      | "CODE_128" =>
+        showOut (encode1D (code128Writer (fun _ => runes) cc) content fmt w h hints)
+      | "CODE_39" => showOut (encode1D (code39Writer cc) content fmt w h hints)
+      | "CODE_93" => showOut (encode1D (code93Writer cc) content fmt w h hints)
+      | "CODABAR" => showOut (encode1D (codabarWriter cc) content fmt w h hints)
+      | "ITF" => showOut (encode1D (itfWriter cc) content fmt w h hints)
+      | "EAN_13" => showOut (encode1D (ean13Writer cc) content fmt w h hints)
+      | "EAN_8" => showOut (encode1D (ean8Writer cc) content fmt w h hints)
+      | "UPC_E" => showOut (encode1D (upcEWriter cc) content fmt w h hints)
+      | "UPC_A" => showOut (encodeUPCA (ean13Writer cc) content fmt w h hints)
+      | _ => "bad-writer"
+    | _, _, _, _, _, _, _, _ => "bad-op"
+  | ["atoi", hex] =>
+    match parseHex? hex with
+    | some bs => match atoi bs with | some v => s!"{v}" | none => "ERR"
+    | none => "bad-op"
   | _ => "bad-op"
 
 end Gzx.Driver.C12
